@@ -2,6 +2,7 @@ import BtcwVerif.Model.Ledger
 import BtcwVerif.Model.TxInv
 -- engine: txstore
 import Driver.Proto
+import Driver.RefFuzz
 open Proto TxStore
 
 /-! Driver engine `txstore` (C01 C02 C12 C13): runs the `TxStore` model op by op (ops mirror the Go API of
@@ -77,6 +78,7 @@ structure St where
   now : Nat := 0
   maturity : Int := 100
   cons : Bool := true
+  strict : Bool := true     -- `cons` and the extra hypotheses of the refinement theorems (`Ledger.extra`)
   snaps : List (String × String × String) := []
 
 def St.tx? (st : St) (tid : String) : Option Tx := st.txs.lookup tid
@@ -173,21 +175,14 @@ def positional (toks : List String) : List String := toks.filter fun t => !(t.co
 
 /-! ### events on the model: the API call sequence of `wallet.addRelevantTx` in one DB transaction -/
 
-def evInsert (force : Bool) (s : Store) (t : Tx) (bm : Option BlockMeta) (cr : List (Nat × Bool)) : M (Bool × Store) := do
-  let (ex, s1) ← insertTx s t bm
-  -- `force`: a client that calls AddCredit after InsertTx whatever InsertTx answered (as wtxmgr's own tests do)
-  if ex && !force then pure (true, s1)
-  else if ex then do
-    let s2 ← cr.foldlM (fun s (i, chg) => addCredit s t bm i chg) s1
-    pure (true, s2)
-  else
-    let s2 ← cr.foldlM (fun s (i, chg) => addCredit s t bm i chg) s1
-    pure (false, s2)
+/-- `TxStore.addRelevantTx` (Model/Refine.lean) -/
+def evInsert (force : Bool) (s : Store) (t : Tx) (bm : Option BlockMeta) (cr : List (Nat × Bool)) : M (Bool × Store) :=
+  addRelevantTx force s t bm cr
 
 def applyEv (st : St) (e : Ledger.Event) : St :=
   let L := { st.L with now := st.now }
   let c := st.cons && Ledger.consistent L e
-  { st with L := Ledger.apply L e, cons := c }
+  { st with L := Ledger.apply L e, cons := c, strict := st.strict && c && Ledger.extra L e }
 
 def specNA (st : St) (f : Unit → String) : String := if st.cons then f () else "ok n/a"
 
@@ -197,7 +192,7 @@ def step (st : St) (line : String) : St × String :=
   match pos with
   | ["reset"] =>
     let mat := ((kv toks "mat").bind String.toInt?).getD 100
-    ({ st with s := {}, L := {}, now := 0, cons := true, maturity := mat }, "ok")
+    ({ st with s := {}, L := {}, now := 0, cons := true, strict := true, maturity := mat }, "ok")
   | ["deftx", tid, h] =>
     match parseHex h, (kv toks "ins").bind (fun s => (csv s).mapM parseOp), (kv toks "outs").bind (fun s => (csv s).mapM String.toInt?) with
     | some h, some ins, some outs =>
@@ -338,6 +333,26 @@ def step (st : St) (line : String) : St × String :=
           balance st.s st.now st.maturity m sy == .ok (storeTruth st.s st.now st.maturity m sy)
         s!"ok inv={b01 (invB st.s && wfB st.s && debitsB st.s && spentHaveDebitsB st.s && unminedB st.s)} truth={b01 t}")
     | none => (st, "bad-op")
+  | ["refcheck"] =>
+    -- the refinement relation store ~ ledger and the ledger's well-formedness, after a consistent history
+    (st, specNA st fun _ =>
+      let L := { st.L with now := st.now }
+      let bad := ((Ledger.refinesList st.s L).filter (!·.2)).map (·.1) ++ ((Ledger.lwfList L).filter (!·.2)).map (·.1)
+      if bad.isEmpty || !st.strict then "ok ref=1" else "ok ref=0 " ++ joinWith "," bad)
+  | ["reffuzz", seed, n, len, strict] =>
+    match seed.toNat?, n.toNat?, len.toNat? with
+    | some seed, some n, some len =>
+      match RefFuzz.fuzz seed n len (strict == "1") with
+      | (none, _) => (st, "ok ref=1")
+      | (some f, _) => (st, "ok ref=0 " ++ f)
+    | _, _, _ => (st, "bad-op")
+  | ["reffuzzn", seed, n, len, strict] =>
+    match seed.toNat?, n.toNat?, len.toNat? with
+    | some seed, some n, some len =>
+      match RefFuzz.fuzz seed n len (strict == "1") (strict == "2") with
+      | (none, a) => (st, s!"ok ref=1 applied={a}")
+      | (some f, a) => (st, s!"ok ref=0 applied={a} " ++ f)
+    | _, _, _ => (st, "bad-op")
   | ["spec", "facts"] => (st, specNA st fun _ => "ok " ++ showFacts st.L)
   | _ => (st, "bad-op")
 
